@@ -15,6 +15,7 @@ RULE = (
     "carry out of a bit position (adder), a select value >= w or > 0 (mux), a count >= 2 "
     "(popcount); helper cases with n > 2 / w >= 2. Distinct by digest of the case description."
 )
+RULE += ' Added after seeded-change rounds 4-5: adder flags also passed positionally; bin_to_int on a list must leave the list unchanged and give the same answer twice.'
 ASSUMPTIONS = [
     "reference simulator cgv.refsim (bit-parallel evaluation of the gate functions documented in circuit.py)",
     "sampled (not exhaustive) vectors for widths above the exhaustive bound",
